@@ -10,6 +10,8 @@ import (
 	"bytes"
 	"fmt"
 	"math/rand/v2"
+	"net"
+	"time"
 
 	"github.com/vmware/go-ipfix/pkg/collector"
 
@@ -175,6 +177,88 @@ func main() {
 		if (k/c.NBatch)%5000 == 0 {
 			c.Sample(8, desc)
 		}
+	}
+	if c.Count < 0 && c.Start == 0 {
+		socketPhase(c, reg, c.Pick(40, 400))
+	}
+}
+
+// socketPhase sends templates with unknown elements and their data over ONE TCP connection to a real
+// collecting process in keep and in drop mode: what is delivered must match the reference reading, and
+// a delivered message must not change when later messages arrive on the connection (the collector
+// fixture re-reads the last deliveries after each new one).
+func socketPhase(c *hx.Ctx, reg *mirror.Registry, n int) {
+	for mi, mode := range []string{mirror.Keep, mirror.Drop} {
+		k := -20 - mi
+		r := c.Rand(k, 3)
+		c.Journal(k, map[string]any{"phase": "unknown elements through the real TCP handler", "mode": mode, "templates": n})
+		coll, err := lib.StartCollector(collector.CollectorInput{Address: "127.0.0.1:0", Protocol: "tcp", MaxBufferSize: 65535, DecodingMode: collector.DecodingMode(mode)})
+		if err != nil {
+			c.Violation(k, "collector-did-not-start", err.Error(), nil)
+			return
+		}
+		conn, err := net.Dial("tcp", coll.Addr())
+		if err != nil {
+			c.Inconclusive("dial: " + err.Error())
+			coll.Stop(10 * time.Second)
+			return
+		}
+		domain := uint32(0xC1700000 | uint32(c.Batch)<<8 | uint32(mi))
+		model := mirror.Table{}
+		type sent struct {
+			msg    []byte
+			before mirror.Table
+		}
+		var all []sent
+		for i := 0; i < n; i++ {
+			nk := 1 + r.IntN(5)
+			known := gen.Template(r, lib.Pool, nk)
+			var fl []fld
+			for j, e := range known {
+				if r.IntN(2) == 0 || j == 0 {
+					fl = append(fl, fld{false, unknownField(r)})
+				}
+				fl = append(fl, fld{true, e})
+			}
+			tid := uint16(300 + i)
+			for rep := 0; rep < 3; rep++ {
+				vals := make([][][]byte, 1+r.IntN(3))
+				for x := range vals {
+					for _, f := range fl {
+						if f.known {
+							vals[x] = append(vals[x], gen.Value(r, f.elem, 300))
+						} else {
+							vals[x] = append(vals[x], unknownValue(r, f.elem))
+						}
+					}
+				}
+				tm, dm := build(domain, tid, fl, vals, true)
+				if rep == 0 {
+					all = append(all, sent{tm, model.Clone()})
+					model.Apply(reg, mode, tm)
+					conn.Write(tm)
+				}
+				all = append(all, sent{dm, model.Clone()})
+				conn.Write(dm)
+			}
+		}
+		got, ok := coll.Wait(domain, len(all), 30*time.Second)
+		conn.Close()
+		if !ok {
+			c.Violation(k, "socket-phase-lost:"+mode, fmt.Sprintf("%d of %d messages sent over one TCP connection were delivered", len(got), len(all)), nil)
+		} else {
+			for i, d := range got {
+				if class, why, _ := mirror.Judge(reg, mode, all[i].before, all[i].msg, d.Out); class != "" {
+					c.Violation(k, "socket-phase:"+class+":"+mode, fmt.Sprintf("delivery %d: %s", i, why), nil)
+					break
+				}
+			}
+			c.Add("socket_phase_messages_"+mode, int64(len(got)))
+		}
+		if m := coll.Mutations(); len(m) > 0 {
+			c.Violation(k, "delivered-message-changed-later:"+mode, m[0], nil)
+		}
+		coll.Stop(20 * time.Second)
 	}
 }
 
